@@ -573,7 +573,7 @@ impl Exec {
                 }
                 true
             }
-            "adopt" | "presented" | "ordercheck" | "clirun" => true,
+            "adopt" | "presented" | "ordercheck" | "clirun" | "clicheck" => true,
             "ngbig" if ws.len() == 2 => {
                 out.line(l);
                 out.flush();
@@ -845,9 +845,13 @@ impl Exec {
         let mut lr = Rng::new(lseed);
         let mut wr = Rng::new(wseed);
         let pool = ["a", "b", "x", "and", "andy", "or", "c", "neg1", "s", "ac", "iff", "xor", "imp", "10", "9", "2", "02", "B", "a10", "a9", "a2", "Zz", "v", "f"];
+        // quoted labels (no blank, no comma, none of the characters biodivine rejects: D6)
+        let qpool = ["gr\u{f6}\u{df}e", "it's", "x\\y", "a-b", "p.q", "\u{e4}", "A_1", "z#", "caf\u{e9}", "%"];
         let mut labels: Vec<String> = Vec::new();
         while labels.len() < n {
-            let cand = if lr.chance(1, 4) {
+            let cand = if lr.chance(1, 6) {
+                qpool[lr.usize(qpool.len())].to_string()
+            } else if lr.chance(1, 4) {
                 format!("{}{}", pool[lr.usize(pool.len())], lr.below(30))
             } else {
                 pool[lr.usize(pool.len())].to_string()
@@ -856,6 +860,11 @@ impl Exec {
                 labels.push(cand);
             }
         }
+        // how a label is written in the file
+        let flabels: Vec<String> = labels
+            .iter()
+            .map(|l| if !l.is_empty() && l.chars().all(|c| c.is_ascii_alphanumeric()) { l.clone() } else { format!("\"{l}\"") })
+            .collect();
         let ws = |wr: &mut Rng| -> String {
             match wr.below(5) {
                 0 => " ".into(),
@@ -867,11 +876,11 @@ impl Exec {
         let mut txt = String::new();
         for &k in perm {
             if k < n {
-                txt += &format!("s({}).{}", labels[k], ws(&mut wr));
+                txt += &format!("s({}).{}", flabels[k], ws(&mut wr));
             } else {
-                let body = text(&self.acs[k - n], &labels);
+                let body = text(&self.acs[k - n], &flabels);
                 let body = if wr.bool() { body.replace(',', &format!("{},{}", ws(&mut wr), ws(&mut wr))) } else { body };
-                txt += &format!("ac({}{},{}{}).{}", labels[k - n], ws(&mut wr), ws(&mut wr), body, ws(&mut wr));
+                txt += &format!("ac({}{},{}{}).{}", flabels[k - n], ws(&mut wr), ws(&mut wr), body, ws(&mut wr));
             }
         }
         let src: &'static str = Box::leak(txt.clone().into_boxed_str());
@@ -945,6 +954,7 @@ impl Exec {
             }
             canon.push(cs.into_iter().collect());
         }
+        let raw_seq = canon.clone();
         let unordered = flag_list.iter().any(|f| *f == "stmrew" || *f == "stmrew2");
         let mut seq = canon.clone();
         if unordered {
@@ -963,6 +973,10 @@ impl Exec {
             ),
             format!("= exit={code} wellformed={} lines={}", wellformed as u8, j(&seq)),
             format!("~ exit={code} set={}", j(&set)),
+            // the documented order of the sections is judged by the specification too: the printed
+            // lines, in order, are handed over and split into the sections' blocks there
+            format!("clicheck {mode} {flags} {code} {} {}", wellformed as u8, j(&raw_seq)),
+            "~ ok".to_string(),
             format!("# case adf n={n} nodes=9 mode={mode} flags={}", flag_list.len()),
         ])
     }
